@@ -215,24 +215,57 @@ def loop_exits(F):
         if not loops:
             continue
         n = 0
-        seen = set()
+        backs = fn.back_edges()
         for h, body in loops.items():
+            exits = {}
             for u in body:
                 t = fn.term(u)
                 if t.get("exp_outer") in ("debug_assert!", "trace!", "debug!", "info!", "warn!", "error!", "assert!", "debug_assert_eq!"):
                     continue
                 for v in fn.succ(u):
-                    if v not in body and (u, v, h) not in seen:
-                        seen.add((u, v, h))
-                        # an edge into a block that can only panic is not a way to skip elements
-                        if fn.is_unreachable_block(v) or not _reaches_return(fn, v):
-                            continue
-                        n += 1
+                    # an edge into a block that can only panic is not a way to skip elements
+                    if v not in body and not fn.is_unreachable_block(v) and _reaches_return(fn, v) and not _error_exit(fn, v):
+                        exits.setdefault(u, []).append(v)
+            if not exits:
+                continue
+            # the loop's own test — the exiting block every trip passes first (`match it.next() { None => break, .. }`, `while c`):
+            # it dominates every latch and every other exiting block.  Leaving there is how the loop ends; every other exit is an
+            # early one, and only those are counted.
+            latches = [a for a, b in backs if b == h and a in body]
+            test = [u for u in exits if all(fn.dominates(u, l) for l in latches) and all(fn.dominates(u, w) for w in exits)]
+            n += sum(len(set(v)) for u, v in exits.items() if not (test and u == test[0]))
         if not n:
             continue
         for o, _ in (owners(F, fn) or [(fn, None)]):
             out[o.name] = out.get(o.name, 0) + n
     return out
+
+
+def _error_exit(fn, b):
+    """the edge leads to an error return only — the failing arm of a `?` or an explicit `return Err(..)`: every way from it to
+    the function's return writes the `Err` variant of the result (the whole build fails; no element is silently skipped)"""
+    def errs(x):
+        t = fn.term(x)
+        if t["k"] == "call" and re.search(r"FromResidual\b.*::from_residual$", M.call_name(t)):
+            return True
+        for st in fn.j["blocks"][x]["stmts"]:
+            if st["k"] == "assign" and st["p"]["l"] == 0 and not st["p"]["pj"]:
+                rv = st["rv"]
+                if rv.get("k") == "aggregate" and rv.get("path") == "std::result::Result" and rv.get("variant") == "Err":
+                    return True
+        return False
+    seen, st = set(), [b]
+    while st:
+        x = st.pop()
+        if x in seen:
+            continue
+        seen.add(x)
+        if errs(x):
+            continue
+        if fn.term(x)["k"] == "return":
+            return False
+        st.extend(fn.succ(x))
+    return True
 
 
 def _reaches_return(fn, b):
@@ -254,6 +287,16 @@ def _reaches_return(fn, b):
     return ok
 
 
+# functions whose loop IS a search: leaving early on a hit is the point, and a rule analyses hit / miss / exhausted element by element
+EXIT_UNDERSTOOD = [
+    (r"CompiledDfa::priority_of$", "C01.c search table"),
+    (r"Minimizer::find_group$", "C03.d search table"),
+    (r"CompiledScannerMode::has_transition$", "C06.d ordered search table"),
+    (r"CharacterClassRegistry::add_character_class$", "C02.f lookup of an equal class"),
+    (r"ScannerImpl::mode_name$|scanner::Scanner::mode_name$", "C06.g lookup by index"),
+]
+
+
 def analyze_exits(ctx, rules):
     import json, os
     F = ctx.facts
@@ -272,7 +315,11 @@ def analyze_exits(ctx, rules):
                 continue
             n += 1
             r = ref.get(oname, ref.get(re.sub(r"<'\w+>", "<'_>", oname), 0))
+            und = [w for rx, w in EXIT_UNDERSTOOD if re.search(rx, oname)]
+            if und:
+                ctx.ob(rule, "loop-exits:%s" % M.short_name(oname), True, "a search, decided by the %s" % und[0], "")
+                continue
             ctx.ob(rule, "loop-exits:%s" % M.short_name(oname), k <= r,
-                   "the loops of %s can be left at %d place(s), the reference tree has %d%s" % (M.short_name(oname), k, r, "" if k <= r else
+                   "the loops of %s can be left early at %d place(s), the reference tree has %d%s" % (M.short_name(oname), k, r, "" if k <= r else
                    ": an added `break` / early `return` inside a loop ends a walk before every element was visited, and no rule analyses this exit"), "")
         ctx.sample({"rule": rule, "functions_with_loops_in_area": n})
